@@ -64,6 +64,8 @@ def worker(job):
     patched, ass = H.install(numba_pyfunc=False)
     spec, steps, fail = job["spec"], job["steps"], set(job["fail"])
     cut = set(job.get("cut") or [])          # steps whose profile takes the only feeder out of service
+    toggle = set(job.get("toggle") or [])    # steps whose profile takes the last pipe out of service (topology changes)
+    pfopts = dict(job.get("pfopts") or {})   # options handed to every calculation of the series (and to the stand-alone runs)
     cont = job["continue"]
     is_gas = spec["fluid"] != "water"
     ctrl_elems = job["controlled"]            # list of (table, index)
@@ -74,10 +76,12 @@ def worker(job):
     def rts_wrapper(net, time_step, ts_variables, *a, **kw):
         holder["cur"] = time_step
         H.CTX.force_fail = time_step in fail
+        n0 = len(stubs.CTX.systems)
         try:
             return orig_rts(net, time_step, ts_variables, *a, **kw)
         finally:
             H.CTX.force_fail = False
+            holder.setdefault("sys", {})[time_step] = (n0, len(stubs.CTX.systems))
 
     def capture(net, time_step, pf_converged, ctrl_converged, ts_variables):
         holder["cap"][time_step] = _capture_tables(net) if pf_converged else None
@@ -89,6 +93,7 @@ def worker(job):
     def run_ts():
         holder["cap"].clear()
         holder["flags"].clear()
+        holder.pop("sys", None)
         net, names = nets.build(spec, nets.sym_valuer(), fluid=stubs.make_sym_fluid(is_gas))
         cols = {}
         for tbl, ix in ctrl_elems:
@@ -101,23 +106,29 @@ def worker(job):
         if cut:
             control.ConstControl(net, element="ext_grid", variable="in_service", element_index=list(net.ext_grid.index),
                                  data_source=ds_on, profile_name=["feeder_on"] * len(net.ext_grid))
+        if toggle:
+            ds_tg = DFData(pd.DataFrame({"pipe_on": np.array([t not in toggle for t in range(nrows)], dtype=bool)}))
+            control.ConstControl(net, element="pipe", variable="in_service", element_index=[net.pipe.index[-1]],
+                                 data_source=ds_tg, profile_name=["pipe_on"])
         rts.run_time_step = rts_wrapper
         exc = None
         try:
             run_timeseries(net, time_steps=list(steps), continue_on_divergence=cont, verbose=False,
-                           output_writer_fct=capture, mode="hydraulics", use_numba=False)
+                           output_writer_fct=capture, mode="hydraulics", use_numba=False, **pfopts)
         except Exception as e:
             exc = e
         finally:
             rts.run_time_step = orig_rts
-        return dict(cap=dict(holder["cap"]), flags=dict(holder["flags"]), exc=exc)
+        return dict(cap=dict(holder["cap"]), flags=dict(holder["flags"]), exc=exc, sys=dict(holder.get("sys", {})))
 
     def run_alone(t):
         def f():
             net, names = nets.build(spec, nets.sym_valuer(), fluid=stubs.make_sym_fluid(is_gas))
             for tbl, ix in ctrl_elems:
                 net[tbl].at[ix, "mdot_kg_per_s"] = prof_sym(tbl, ix, t)
-            pp.pipeflow(net, mode="hydraulics", use_numba=False)
+            if t in toggle:
+                net.pipe.at[net.pipe.index[-1], "in_service"] = False
+            pp.pipeflow(net, mode="hydraulics", use_numba=False, **pfopts)
             return net
         return f
     _, names = nets.build(spec, nets.sym_valuer())
@@ -142,6 +153,7 @@ def worker(job):
     def bad(fp, what):
         viol.append({"fingerprint": fp, "detail": {"job": job["name"], "what": what},
                      "replay": {"kind": "ts", "spec": spec, "steps": steps, "fail": sorted(fail - cut), "cut": sorted(cut),
+                                "toggle": sorted(toggle), "pfopts": pfopts,
                                 "continue": cont, "controlled": ctrl_elems, "values": {}}})
     if pt.exc is not None:
         return finish_worker(job, ext, [], errors=["time series raised %r" % (pt.exc,)])
@@ -179,6 +191,33 @@ def worker(job):
         netb = pb.value
         hy = A + pt.facts + pb.facts + pt.path + pb.path + pt.defined + pb.defined + pb.lin
         others = ["@%d" % u for u in range(nrows) if u != t]
+        # the Newton system the step assembled == the one of the stand-alone run (the results are `state - update`
+        # with identically named update unknowns, so everything that enters through the matrix or the right-hand side
+        # is compared here), and no profile value of another step occurs in it
+        n0, n1 = out["sys"].get(t, (0, 0))
+        sys_t, sys_b = pt.systems[n0:n1], pb.systems
+        D.STATS.obligations += 1
+        if len(sys_t) != len(sys_b):
+            bad("C13/step_equals_standalone", "step %s assembled %d systems, the stand-alone run %d" % (t, len(sys_t), len(sys_b)))
+        else:
+            D.STATS.rewriter += 1
+        for k_, (sa_, sb_) in enumerate(zip(sys_t, sys_b)):
+            so, se = equiv.system_obligations(sa_, sb_, "step %s system %d" % (t, k_))
+            for msg in se:
+                bad("C13/step_equals_standalone", "step %s: %s" % (t, msg))
+            for lab_, x_, y_ in so:
+                if len([v for v in viol if v["fingerprint"] in ("C13/step_equals_standalone", "C13/taint")]) >= 4:
+                    break
+                if isinstance(x_, Sym):
+                    leak = [v for v in free_vars(x_.t) if v.startswith("prof.") and any(v.endswith(o) for o in others)]
+                    if leak:
+                        bad("C13/taint", "%s depends on %s of another step" % (lab_, leak[0]))
+                        continue
+                r, m, how = D.check(hy, _t(x_) == _t(y_), sample=lab_, timeout_ms=4000, witness=(pb.witness, H.witness_funcs()))
+                if r == 'sat':
+                    bad("C13/step_equals_standalone", lab_)
+                elif r == 'unknown':
+                    job.setdefault("_inconclusive", []).append(lab_)
         for key, ta in out["cap"][t].items():
             if key not in netb:
                 continue
@@ -224,6 +263,8 @@ def replay(rs):
     from pandapipes.timeseries import run_timeseries
     spec, steps, fail, cont = rs["spec"], rs["steps"], set(rs["fail"]), rs["continue"]
     cut = set(rs.get("cut") or [])
+    toggle = set(rs.get("toggle") or [])
+    pfopts = dict(rs.get("pfopts") or {})
     is_gas = spec["fluid"] != "water"
     nrows = max(steps) + 1
     base = 0.05 if is_gas else 0.4
@@ -241,6 +282,10 @@ def replay(rs):
     if cut:
         control.ConstControl(net, element="ext_grid", variable="in_service", element_index=list(net.ext_grid.index),
                              data_source=ds_on, profile_name=["feeder_on"] * len(net.ext_grid))
+    if toggle:
+        ds_tg = DFData(pd.DataFrame({"pipe_on": np.array([t not in toggle for t in range(nrows)], dtype=bool)}))
+        control.ConstControl(net, element="pipe", variable="in_service", element_index=[net.pipe.index[-1]],
+                             data_source=ds_tg, profile_name=["pipe_on"])
     fail = fail | cut
     cap, flags = {}, {}
 
@@ -251,7 +296,7 @@ def replay(rs):
     exc = None
     try:
         run_timeseries(net, time_steps=list(steps), continue_on_divergence=cont, verbose=False, output_writer_fct=capture,
-                       mode="hydraulics", max_iter_hyd=30)
+                       mode="hydraulics", max_iter_hyd=30, **pfopts)
     except Exception as e:
         exc = e
     badl = []
@@ -268,7 +313,9 @@ def replay(rs):
         nb, _ = nets.build(spec, nets.concrete_valuer({}))
         for tbl, ix in rs["controlled"]:
             nb[tbl].at[ix, "mdot_kg_per_s"] = val(t)
-        ok, err = concrete_pipeflow(nb, mode="hydraulics", max_iter_hyd=30)
+        if t in toggle:
+            nb.pipe.at[nb.pipe.index[-1], "in_service"] = False
+        ok, err = concrete_pipeflow(nb, mode="hydraulics", max_iter_hyd=30, **pfopts)
         if not ok:
             badl.append("stand-alone step %s failed: %s" % (t, err))
             continue
@@ -301,6 +348,11 @@ def jobs(tier, seed):
                 out.append({"name": "%s/ctrl0/steps%s/cut%s/%s" % (s["name"], "".join(map(str, st)), "".join(map(str, ct)),
                                                                    "cont" if cont else "stop"),
                             "spec": s, "controlled": ctrls[0], "steps": st, "fail": [], "cut": ct, "continue": cont})
+        # the topology changes from step to step while the matrix-update option is on (no internal data may be carried over)
+        for st, tg in (([0, 1, 2], [1]), ([1, 0], [1])):
+            out.append({"name": "%s/ctrl0/steps%s/toggle%s/update" % (s["name"], "".join(map(str, st)), "".join(map(str, tg))),
+                        "spec": s, "controlled": ctrls[0], "steps": st, "fail": [], "toggle": tg, "continue": False,
+                        "pfopts": {"only_update_hydraulic_matrix": True}})
     return out
 
 
